@@ -243,7 +243,7 @@ def step (st : St) (pre post : List String) : St × Verdict :=
     match h.toInt? with
     | none => (st, .bad "rollback")
     | some h =>
-      let mm := rollbackMS H st.shadow st.names h
+      let mm := rollbackMS st.shadow st.names h
       let committed := (st.obs.find? (·.1 = h)).isSome ∧ (latestObs st).any (fun e => h < e.1)
       match post with
       | "ERR" :: _ | "PANIC" :: _ =>
